@@ -45,7 +45,16 @@ def A_v2(i):
     return rs("t/a", [["string", "s"], ["varint", "n"], ["string", "owner"], ["varint", "mode"]], ["'a%d'" % i, str(i), "'root'", "420"], _source="'src-a2'")
 
 
+def K1(i):  # K1 / K2: two types of one name whose (name, hash) identifiers coincide
+    return rs("t/k", [["stringlist", "a"], ["string", "b"]], ["['p%d', 'q']" % i, "'b%d'" % i], _source="'src-k1'")
+
+
+def K2(i):
+    return rs("t/k", [["string", "a"], ["string", "listb"]], ["'plain%d'" % i, "'lb%d'" % i], _source="'src-k2'")
+
+
 GOOD = {
+    "G6": [K1(60), K2(61), K1(62), K2(63), B(64)],
     "G4": [A(40), A_v2(41), A(42), A_v2(43)],
     "G5": [B(50), A(51), B(52)],
     "G1": [A(i) if i % 2 == 0 else B(i) for i in range(8)],
@@ -56,7 +65,8 @@ GOOD = {
 BAD = ["missing", "zero", "garbage", "garbage.gz", "torn", "boundary", "torn.gz", "damaged.gz", "damaged-head.gz", "garbage.lz4", "garbage.zst", "garbage.bz2"]
 SELECTORS = [None, "True", "r.n > 3", "r.s == 'a2' or r.s == 'a21' or r.s == 'a30'", "r.n == -1", "r.w == 'b3' or name(r) == 't/n'",
              "has_field(r, 's') and any(c == 'a' for c in r.s)", "any(c in '24' for c in str(r.n)) and any(c != 'q' for c in name(r))",
-             "r.s == 'a2' or True", "not (r.s == 'a2')", "r.w == 'b3' or r.n > 20"]
+             "r.s == 'a2' or True", "not (r.s == 'a2')", "r.w == 'b3' or r.n > 20",
+             "r.w is not None", "r.s is None or r.n == 4"]
 _SRC = {}
 
 
@@ -68,7 +78,7 @@ def build_sources(d):
         return _SRC[d]
     out = {}
     for key, specs in GOOD.items():
-        ext = {"G1": ".records", "G2": ".records.gz", "G3": ".json", "G0": ".records", "G4": ".records", "G5": ".records.gz"}[key]
+        ext = {"G1": ".records", "G2": ".records.gz", "G3": ".json", "G0": ".records", "G4": ".records", "G5": ".records.gz", "G6": ".records"}[key]
         p = os.path.join(d, key + ext)
         w = RecordWriter(p)
         for s in specs:
@@ -582,6 +592,13 @@ def cases(tier, seed):
         for sel in SELECTORS:
             for engine in ("compiled", "interpreted"):
                 for skip, count in (slices if (len(src) == 1 or all(s in goods for s in src)) else slices[:5]):
+                    yield {"kind": "slice", "sources": src, "selector": sel, "engine": engine, "skip": skip, "count": count}
+    for src in (["G6"], ["G6", "G3"], ["G3", "G6"], ["G6", "torn"], ["boundary", "G6"], ["G6", "G6"]):
+        for sel in SELECTORS + ["r.a == 'plain61'", "Type.string == 'b62'", "r.listb == 'lb63' or r.b == 'b60'"]:
+            if sel and "str(r.n)" in sel:
+                continue  # the text form of a field these types do not have is not a comparison of a missing field: no pinned meaning
+            for engine in ("compiled", "interpreted"):
+                for skip, count in slices[:5]:
                     yield {"kind": "slice", "sources": src, "selector": sel, "engine": engine, "skip": skip, "count": count}
     names = ["s", "n", "_source", "zz", "ts"]
     fl = [[]] + [list(p) for k in (1, 2) for p in itertools.permutations(names, k)]
